@@ -227,6 +227,24 @@ def rule_db_classes(ctx) -> None:
                 if isinstance(v, dict):
                     provided.update(v)
             provided.update({"total_len", "app_len", "total_length_for_cert_block", "family", "revision", "search_paths", "dek", "IMAGE_TYPE", "rkth", "validate", "data_to_sign", "app"})
+            # ... and must still be there on an object that was PARSED (not loaded from a configuration): class-level values,
+            # NEEDED_MEMBERS defaults and what the parse phase stores - an annotation or a store in mix_load_from_config is not enough
+            after_parse: Set[str] = set()
+            for k in mro:
+                after_parse.update(k.methods)
+                after_parse.update(k.consts)
+                for mname2, lst2 in k.methods.items():
+                    if mname2 in ("mix_load_from_config", "mix_get_config", "load_from_config"):
+                        continue
+                    for f2 in lst2:
+                        for n3 in ast.walk(f2.node):
+                            if isinstance(n3, ast.Attribute) and isinstance(n3.ctx, ast.Store) and isinstance(n3.value, ast.Name) and n3.value.id == "self":
+                                after_parse.add(n3.attr)
+                nm = k.consts.get("NEEDED_MEMBERS")
+                v = prog.fold(nm, k.module, k) if nm is not None else None
+                if isinstance(v, dict):
+                    after_parse.update(v)
+            after_parse.update({"total_len", "app_len", "total_length_for_cert_block", "family", "revision", "search_paths", "dek", "IMAGE_TYPE", "rkth", "validate", "data_to_sign", "app"})
             for k in mro:
                 if not (k is export_base or export_base in prog.mro(k)):
                     continue
@@ -247,6 +265,9 @@ def rule_db_classes(ctx) -> None:
                             continue
                         if parts[0] == "self" and len(parts) >= 2 and parts[1] not in provided and parts[1] not in guarded and not parts[1].startswith("__"):
                             chk.bad("C01.db-classes", f"{where} {cname} {mix}", f"{k.name}.{mname} reads self.{parts[1]} which no mixin of this class provides", "every attribute read without hasattr() is provided by the composition", dbfile)
+                        elif parts[0] == "self" and len(parts) >= 2 and parts[1] not in after_parse and parts[1] not in guarded and not parts[1].startswith("__") and mname not in ("disassemble_image",):
+                            chk.bad("C01.parse-restores", f"{k.name}.{mname} self.{parts[1]}", f"{k.name}.{mname} reads self.{parts[1]}, which only mix_load_from_config sets: exporting a PARSED image of {where} {cname} raises AttributeError",
+                                    "mix_parse (or NEEDED_MEMBERS) restores every attribute the export path reads", dbfile)
         # images table: names classes, keys known
         for tgt, amap in images.items():
             if tgt not in targets.get("targets", {}):
@@ -617,6 +638,41 @@ def rule_reloc_table(ctx) -> None:
                    "; ".join(probs[:2]), "", A.loc(CLS, par.node))
 
 
+def rule_parse_validates(ctx) -> None:
+    """A mixin that REQUIRES TrustZone (its mix_validate refuses a disabled one) must not parse an image into the disabled state when
+    the image says TrustZone is used: on the paths of its effective mix_parse, TrustZone.disabled() may only be assigned where the
+    TrustZone type read from the image flags is not ENABLED, and some path must restore the enabled (default preset) setting."""
+    chk, prog = ctx.chk, ctx.prog
+    base = ctx.cls(MIX, "Mbi_MixinTrustZoneMandatory")
+    val = prog.find_method(base, "mix_validate")
+    refuses = val is not None and any(q.end == "raise" and any("TrustZoneType.DISABLED" in c for c, _p in q.conds) for q in A.gpaths(val.node))
+    if not refuses:
+        raise AnalysisError("C01.parse-validates: Mbi_MixinTrustZoneMandatory.mix_validate no longer refuses a disabled TrustZone")
+    n = 0
+    for k in sorted(set(prog.subclasses(base)) | {base}, key=lambda c: c.name):
+        mp = prog.find_method(k, "mix_parse")
+        if mp is None or mp.cls is None:
+            continue
+        if k is not base and mp.cls is not k:
+            continue  # inherited: decided where it is defined
+        n += 1
+        dis_ok, enabled = True, False
+        for q in A.spaths(mp.node):
+            for s2 in q.sstmts:
+                if isinstance(s2, ast.Assign) and norm(s2.targets[0]) in ("self.trust_zone", "trust_zone"):
+                    v = norm(s2.value)
+                    tz_enabled_known_false = any("get_tz_type(data)" in c and "TrustZoneType.ENABLED" in c and not p for c, p in q.conds) or \
+                        any("tz_type" in c and "TrustZoneType.ENABLED" in c and not p for c, p in q.conds)
+                    if v == "TrustZone.disabled()" and not tz_enabled_known_false:
+                        dis_ok = False
+                    if v == "TrustZone.enabled()":
+                        enabled = True
+        chk.decide(dis_ok and enabled, "C01.parse-validates", mp.qual, "a parsed image never ends up with the disabled TrustZone its own validation refuses while the image flags say TrustZone is used",
+                   f"disabled assigned only when the image flags are not ENABLED: {dis_ok}; the default (enabled) setting is restored on some path: {enabled}", "take the setting from ivt_table.get_tz_type(data)", A.loc(MIX, mp.node))
+    if n < 2:
+        raise AnalysisError(f"C01.parse-validates: only {n} mix_parse implementations found under Mbi_MixinTrustZoneMandatory")
+
+
 def rule_config_keys(ctx) -> None:
     """Every configuration key a mixin writes in mix_get_config is read by its (effective) mix_load_from_config."""
     chk, prog = ctx.chk, ctx.prog
@@ -726,6 +782,7 @@ def run(ctx) -> None:
     ctx.rule(rule_wire)
     ctx.rule(rule_parse_wait)
     ctx.rule(rule_reloc_table)
+    ctx.rule(rule_parse_validates)
     from . import c17 as _c17
     _t = _c17.build_taint(ctx)
     ctx.rule(_c17.rule_stable_getter, _t, "C01")
